@@ -13,6 +13,8 @@ static inline P2 mk(uint64_t v) { return P2{v, ~v}; }
 // consume one item with an existing consumer object `c`
 #define CONS1() do { const P2* x = c.consume(); if (x) { vf_check(x->b == ~x->a, 2); if (ngot[T] < 4) got[T][ngot[T]] = x->a; ngot[T]++; } else ended[T]++; } while (0)
 #define CONS2() do { auto r = c.consume(2); for (size_t i = 0; i < r.size() && i < 2; ++i) { vf_check(r[i].b == ~r[i].a, 2); if (ngot[T] < 4) got[T][ngot[T]] = r[i].a; ngot[T]++; } if (r.size() < 2) ended[T]++; } while (0)
+// batch consume of 4 starting near the end of a 128-slot block (VF_INIT moved the indices there)
+#define CONS4() do { auto r = c.consume(4); for (size_t i = 0; i < r.size() && i < 4; ++i) { vf_check(r[i].b == ~r[i].a, 2); if (ngot[T] < 4) got[T][ngot[T]] = r[i].a; ngot[T]++; } if (r.size() < 4) ended[T]++; } while (0)
 #define BODY(n) extern "C" void vf_thread_##n() { constexpr int T = n; (void)T; VF_T##n; }
 extern "C" void vf_init() { t = new T_; t->_slots.reserve(4);
 #ifdef VF_INIT
